@@ -21,6 +21,7 @@ class Facts:
         self.cancel_step = {}  # ctx -> step
         self.ending_actions = False
         self.first_report = None   # (step, text)
+        self.reports = []          # every report (step, text)
         self.bclosed_step = None
         self.ret = {}          # i -> (step, v, e)
         self.linkret = None
@@ -42,6 +43,8 @@ class Facts:
                 self.ending_actions = True
             evs = st["obs"]["events"]
             for e in evs[seen_ev:]:
+                if e["k"] == "report":
+                    self.reports.append((k, e.get("e", "")))
                 if e["k"] == "report" and self.first_report is None:
                     self.first_report = (k, e.get("e", ""))
                 if e["k"] == "ret" and e["i"] not in self.ret:
@@ -241,6 +244,10 @@ def mon_c16(f):
             out.append("Link returned %r but the first fatal error was %r" % (f.linkret[1], f.first_report[1]))
         if f.linkret[1] == "":
             out.append("Link returned a nil error")
+        if f.linkret[1] == "closed":
+            # the harness never injects a failure with this text: it can only be utils.ErrClosed of a call that was made
+            # on the already ended link - a consequence of the failure that ended the link, not that failure
+            out.append("Link returned 'closed' (the consequential error of a call made on the already ended link) instead of the failure that ended the link (%s)" % ", ".join(sorted(set(r[1] for r in f.reports if r[1] != "closed"))) )
     if f.quiescent and f.first_report is not None and f.linkret is None:
         out.append("the link ended (%r) but Link has not returned at quiescence" % (f.first_report[1],))
     return out
